@@ -25,6 +25,20 @@ Definition svd_dense (leb : R -> R -> bool) (r : nat) (U : fm) (s : nat -> R) (V
   let idx := argsort leb r s in
   mksvd (length idx) (fun i j => U i (nth j idx 0%nat)) (fun j => s (nth j idx 0%nat)) (fun i j => V i (nth j idx 0%nat)).
 
+(* fancy indexing of a decomposition by a list of positions: U[:, idx], Sigma[idx], V[:, idx] *)
+Definition svd_take (idx : list nat) (U : fm) (s : nat -> R) (V : fm) : svdout :=
+  mksvd (length idx) (fun i j => U i (nth j idx 0%nat)) (fun j => s (nth j idx 0%nat)) (fun i j => V i (nth j idx 0%nat)).
+Definition pick (sl idx : list nat) : list nat := map (fun j => nth j idx 0%nat) sl.
+(* repaired DenseSVD: idx = argsort(Sigma)[get_slice(k, which)] *)
+Definition svd_dense_k (leb : R -> R -> bool) (r : nat) (U : fm) (s : nat -> R) (V : fm) (k : Z) (wh : which) : option svdout :=
+  match sel k wh r with None => None | Some sl => Some (svd_take (pick sl (argsort leb r s)) U s V) end.
+(* repaired Diagonal rule: Sigma = |d|, the signs / phases go into U = diag(d / |d|); [ab], [ph] are the backend's abs and
+   quotient (oracles), idx the positions kept (all of them, or argsort(|d|)[get_slice(k, which)]) *)
+Definition svd_diag_signed (idx : list nat) (ab ph : nat -> R) : svdout := svd_take idx (dg ph) ab eye.
+(* repaired Identity rule *)
+Definition svd_ident_k (n : nat) (k : Z) (wh : which) : option svdout :=
+  match sel k wh n with None => None | Some sl => Some (svd_take sl eye (fun _ => r1) eye) end.
+
 (* Lanczos rule, n <= m: eigenpairs (lam, W) of A^H A from lanczos_eigs (ascending), sliced by get_slice(k, which);
    V = W[:, slice], Sigma = sqrt(lam[slice]), U = A V inv(Sigma) *)
 Definition svd_lanczos_tall (m n q : nat) (A : fm) (lam : nat -> R) (W : fm) (sqrt_ : R -> R) (k : Z) (wh : which) : option svdout :=
